@@ -64,6 +64,19 @@ L14RQ == {l \in L14Q : l[1] = "nmt" \/ l[3] = FALSE} \cup {<<"cfg", "cid", FALSE
 P14 == << <<"rdcfg", "cid", TRUE, 1>>, <<"rdcfg", "type", TRUE, 1>>, <<"rdcfg", "num", TRUE, 1>>, <<"rdcfg", "map", TRUE, 1, 1>>, <<"rdcfg", "map", TRUE, 1, 2>>, <<"rdcfg", "map", TRUE, 1, 3>>,
           <<"rdcfg", "cid", FALSE, 1>>, <<"rdcfg", "num", FALSE, 1>>, <<"rdcfg", "map", FALSE, 1, 1>>,
           <<"nmt", 128>>, <<"nmt", 1>>, <<"trig", 1>>, <<"rpdo", 517, D1>>, <<"rpdo", 518, D2>>, <<"rd", "b">>, <<"rd", "l">> >>
+\* ---- C14W: eight mapping slots per PDO (8 x 32 bit stored, count 1): counts up to the largest the dictionary holds; the byte sum 8 * 4 = 32
+\*      (256 bit) is where an 8-bit bit counter would wrap; second TPDO with eight 8-bit entries where count 8 is exactly full
+L8 == <<M("l", 32), M("l", 32), M("l", 32), M("l", 32), M("l", 32), M("l", 32), M("l", 32), M("l", 32)>>
+A8 == <<M("a", 8), M("b", 8), M("a", 8), M("b", 8), M("a", 8), M("b", 8), M("a", 8), M("b", 8)>>
+TC14W == << TC(FALSE, 389, 254, 0, 0, 1, L8) >>
+RC14W == << RC(FALSE, 517, 254, 1, L8) >>
+L14W == {<<"nmt", 1>>, <<"nmt", 128>>, <<"cfg", "cid", TRUE, 1, CidOffT>>, <<"cfg", "cid", TRUE, 1, CidOnT>>, <<"cfg", "cid", FALSE, 1, CidOffR>>, <<"cfg", "cid", FALSE, 1, CidOnR>>}
+        \cup {<<"cfg", "num", TRUE, 1, k>> : k \in {1, 2, 3, 7, 8}} \cup {<<"cfg", "num", FALSE, 1, k>> : k \in {1, 2, 8}}
+P14W == << <<"rdcfg", "num", TRUE, 1>>, <<"rdcfg", "num", FALSE, 1>>, <<"nmt", 128>>, <<"nmt", 1>>, <<"trig", 1>>, <<"rpdo", 517, D1>>, <<"rd", "l">> >>
+TC14X == << TC(FALSE, 389, 254, 0, 0, 1, A8) >>
+L14X == {<<"nmt", 1>>, <<"nmt", 128>>, <<"cfg", "cid", TRUE, 1, CidOffT>>, <<"cfg", "cid", TRUE, 1, CidOnT>>}
+        \cup {<<"cfg", "num", TRUE, 1, k>> : k \in {0, 1, 7, 8, 9}} \cup {<<"cfg", "map", TRUE, 1, 8, M("w", 16)>>, <<"cfg", "map", TRUE, 1, 8, M("b", 8)>>}
+P14X == << <<"rdcfg", "num", TRUE, 1>>, <<"rdcfg", "map", TRUE, 1, 8>>, <<"nmt", 128>>, <<"nmt", 1>>, <<"trig", 1>> >>
 \* ---- C16: SYNC consumer / producer: 1005h/1006h writes, SYNC and near-miss frames, NMT, ticks; a type-1 TPDO and a synchronous RPDO make consumption visible
 TC16 == << TC(FALSE, 389, 1, 0, 0, 1, <<M("a", 8), Z4, Z4, Z4>>) >>
 RC16 == << RC(FALSE, 517, 1, 1, <<M("b", 8), Z4, Z4, Z4>>) >>
